@@ -17,6 +17,7 @@ import (
 	"sync/atomic"
 	"time"
 
+	log "github.com/go-spring/log"
 	"github.com/go-spring/log/expr"
 )
 
@@ -702,6 +703,15 @@ func c17Worker(w *W) {
 				c17flatten(ast, "", ref)
 				w.Sample(map[string]any{"wellformed_expression": trunc(text, 300), "expected_map_size": len(ref)})
 			}
+			if i%16 == 7 {
+				// the library's own user of the parser saw this very text first: Refresh expands 'name!' entries through Parse
+				// (the configuration below is rejected right afterwards - it has no appender section - so nothing is started).
+				// What Parse returns for the same text afterwards is still the plain flattening.
+				if pv, _ := catch(func() { _ = log.Refresh(map[string]string{"logger.x!": text}); log.Destroy() }); pv != nil {
+					w.Violate("C17:panic-escapes", fmt.Sprintf("Refresh with an inline expression panicked: %v", pv), map[string]any{"b64": base64.StdEncoding.EncodeToString([]byte(text)), "mode": "wellformed"})
+				}
+				w.Count("expressions_first_seen_through_refresh", 1)
+			}
 			mapping(ast, text)
 		}
 		w.Eval(int64(n))
@@ -716,7 +726,7 @@ func init() {
 		Rule: "totality: seeded hostile inputs of 0..64 KiB in 8 families (random bytes, token soup over the grammar's alphabet, 1-4 token-level mutations of valid expressions, deep unbalanced nesting, deep valid nesting, long flat inputs, one offending token repeated) plus fixed inputs at the 64 KiB bound; " +
 			"each input is journaled before the call, the call runs under a live-heap monitor (budget 4 GiB) in a child process; verdict = returns, no panic, exactly one of (map, error) non-nil (blank: both nil). " +
 			"mapping: expressions generated from the grammar (nesting <= 6, dotted/indexed paths, idents, strings over every admitted character and all 8 escapes, signed/hex integers, floats with exponents, repeated keys, optional trailing comma, three spacing modes incl. none) compared with a reference map computed from the AST. " +
-			"Every fourth well-formed case is preceded by a failed parse in the same process, and a concurrent kind has 4-16 goroutines (one worker under the race detector) parse well-formed and small malformed inputs in random order, every well-formed result compared with its reference map. " +
+			"Every fourth well-formed case is preceded by a failed parse in the same process, every sixteenth is first seen by Refresh as an inline 'name!' expression, and a concurrent kind has 4-16 goroutines (one worker under the race detector) parse well-formed and small malformed inputs in random order, every well-formed result compared with its reference map. " +
 			"distinct_nontrivial = distinct (hostile family, size class) pairs + distinct feature combinations of well-formed expressions whose map matched.",
 		Assumptions: []string{
 			"termination is judged by 'the call returned' inside a generously timed child (a watchdog expiry is inconclusive, never a violation); memory exhaustion is judged by a 4 GiB live-heap budget sampled every 3 ms",
